@@ -342,7 +342,13 @@ func (e *Executor) runDeferred(ctx context.Context, t *ast.Task, call *Call, i i
 	}
 
 	cmd := t.Cmds[i]
-	vars, _ := e.Compiler.GetVariables(origTask, call)
+	vars, err := e.Compiler.GetVariables(origTask, call)
+	if err != nil {
+		// Evaluating the variables again failed: the deferred command still
+		// has to run, with the variables the task was compiled with.
+		e.Logger.VerboseErrf(logger.Yellow, "task: variables of deferred cmd not re-evaluated: %s\n", err.Error())
+		vars = t.Vars
+	}
 	cache := &templater.Cache{Vars: vars}
 	extra := map[string]any{}
 
